@@ -140,7 +140,41 @@ func runCheck(o checkOpts) (code int) {
 	}
 	w := loadWorld(o.repo, overlay, "")
 	a := newA(w, o.prop, o.tier)
-	runProp(o.prop, a)
+	safeRunProp(o.prop, a)
+	if !a.clean(o.verif) {
+		// Second attempt on the normal form with tail calls inlined (split functions glued together again). The
+		// normalisation preserves behaviour, so a clean result there decides the property for the program as written;
+		// anything else leaves the first result standing.
+		for li, level := range []string{rootPath, replPath, "all", rootPath, "all"} {
+			normInline, normInlineStmts = level, li >= 3
+			lineOrigins = map[string][]lineOrigin{}
+			w2 := loadWorld(o.repo, overlay, "")
+			if len(lineOrigins) == 0 {
+				continue
+			}
+			a2 := newA(w2, o.prop, o.tier)
+			safeRunProp(o.prop, a2)
+			if os.Getenv("GBV_DEBUG_NORM") != "" {
+				fmt.Printf("-- normal form level %d (%s, stmts=%v): clean=%v\n", li, level, normInlineStmts, a2.clean(o.verif))
+				for _, ob := range a2.Obs {
+					if ob.Status != "holds" && ob.Status != "info" {
+						fmt.Printf("   %s %s [%s] %s %s\n", ob.Rule, ob.Key, ob.Status, ob.Pos, ob.Detail)
+					}
+				}
+			}
+			if a2.clean(o.verif) {
+				a2.Notes = append(a2.Notes, fmt.Sprintf("decided on the normal form with tail calls inlined in %s (%d file(s) rewritten): the program as written has functions split in a way the rules do not follow", level, len(lineOrigins)))
+				a = a2
+				break
+			}
+		}
+		if a.W == w {
+			// keep reporting against the program as written
+			normInline, normInlineStmts = "", false
+			lineOrigins = map[string][]lineOrigin{}
+			loadWorld(o.repo, overlay, "") // restores the package-level tables built at load time
+		}
+	}
 	var vinfo map[string]interface{}
 	if o.tier == "thorough" && o.variant == "" {
 		vinfo = runVariants(o, a)
@@ -171,4 +205,26 @@ func cmdReplay(args []string) int {
 	}
 	fmt.Printf("replaying %s %s %s on %s\n", v.Property, v.Rule, v.Key, repo)
 	return runCheck(checkOpts{prop: v.Property, tier: "quick", repo: repo, verif: "/verif", noEvidence: true})
+}
+
+// safeRunProp runs the rules of a property; a panic of the analyser (a shape it did not foresee) becomes an undecided
+// instance - which fails the check - instead of ending the run, so that the normal forms still get their turn.
+func safeRunProp(id string, a *A) {
+	defer func() {
+		if e := recover(); e != nil {
+			if _, isInfra := e.(infraError); isInfra {
+				panic(e)
+			}
+			st := string(debug.Stack())
+			where := ""
+			for _, l := range strings.Split(st, "\n") {
+				if strings.Contains(l, "/verif/gbv/rules_") || strings.Contains(l, "/gbv/rules_") {
+					where = strings.TrimSpace(l)
+					break
+				}
+			}
+			a.undecided(id+"-R0", "analyser@panic", "-", "the analyser stopped on a shape it does not handle (%v at %s): nothing is concluded", e, where)
+		}
+	}()
+	runProp(id, a)
 }
